@@ -99,8 +99,11 @@ VCheck(e) ==
   LET i == LastOfMode(S.maps, "CHECK")
       M == S.maps[i].M
       outs == CheckOutcomes(V, S.L, M, e.verify)
-      cause == IF e.verify /\ Best(V, M) # 0 /\ Cardinality(MustFlag(S.L, M, Best(V, M))) >= 2 THEN "_verify_skips_after_corrupt"
-               ELSE IF HasDupCorrupt(S.L, S.up) THEN "_dup_shnum_corrupt_copy" ELSE ""
+      \* structural causes of the two known verify defects; a plain check (verify = FALSE) never gets a suffix
+      cause == IF ~e.verify THEN ""
+               ELSE IF HasDupCorrupt(S.L, S.up) THEN "_dup_shnum_corrupt_copy"
+               ELSE IF Best(V, M) # 0 /\ Cardinality(MustFlag(S.L, M, Best(V, M))) >= 2 THEN "_verify_skips_after_corrupt"
+               ELSE ""
       T == [S EXCEPT !.maps = <<>>]
   IN IF i = 0 THEN R("harness", "harness_no_check_map", S)
      ELSE IF Rel("C14") /\ (e.res = "livelock") THEN R("C14", "check_never_returns" \o cause, T)
